@@ -1298,6 +1298,9 @@ func (g *Gen) Program(id string) *Prog {
 	if g.o.Containers && g.r.Intn(3) == 0 {
 		insert(g.addMapRangeDemo())
 	}
+	if g.o.Structs && g.o.Containers && g.r.Intn(3) == 0 {
+		insert(g.addTypedStoresDemo())
+	}
 	g.prog.Funcs = append(g.prog.Funcs, &Func{Name: "Main", Body: body})
 	if g.o.Packages {
 		g.prog.Split = g.prog.chooseSplit(g.r)
